@@ -4,6 +4,7 @@ from .common import Ctx, Obligation, tail
 PROBE_WHAT = {
  "len-before-less-than": "`len(xs) < n` is emitted as `xs.len() as i64 < n`, which rustc parses as the start of generic arguments (emit/expressions/builtins.rs Len; the unparenthesised cast is pinned by the `builtins`/`classes` snapshots)",
  "string-variable-concat": "`s + t` on str variables is emitted as `str_concat(s, t)` passing `String` where `&str` is expected (pinned by snapshots)",
+ "unimported-pub-name-of-imported-module": "multi-file: a pub item of an imported module that the import does not name is accepted by its bare name; the generated `use` lines name only the imported items (E0425)",
  "string-variable-concat-reused": "`a = s + t; b = s + t`: `str_concat(s, t)` takes its operands by value, so the second use of `s` / `t` is a use after move (E0382); lending the operands would change the `str_concat(s, \" world\")` text the `assignments` / `string_operations` snapshots pin",
  "string-variable-used-twice": "a str variable compared twice in one function is moved into the first helper call (E0382)",
  "list-of-string-literals": "`xs: List[str] = [\"a\"]` is emitted as `vec![\"a\"]` (Vec<&str>) where Vec<String> is required",
